@@ -566,6 +566,58 @@ def acquire (c : Current) (f : Family) (s : State) (size : Nat) (file : String) 
   | .new => alloc s c.newA size file line false result nodeOk fill
   | .newArray => alloc s c.newArrayA size file line false result nodeOk fill
 
+/-! ### the report allocators of `MemoryReporterPlugin` (CppUTestExt) around a test -/
+
+/-- `getRealAllocator()` of a report allocator (what a wrapper wraps) -/
+def Allocator.real : Allocator → Allocator
+  | .wrap _ o => o
+  | a => a
+
+/-- `setRealAllocator(real)`: the same object now wraps `real` -/
+def Allocator.rewrap (a real : Allocator) : Allocator := .wrap a.id real
+
+/-- the plugin's three `MemoryReportAllocator` members -/
+structure ReportAllocs where
+  mallocR   : Allocator
+  newR      : Allocator
+  newArrayR : Allocator
+deriving DecidableEq, Repr, Inhabited
+
+def ReportAllocs.get (r : ReportAllocs) (member : String) : Allocator :=
+  if member == "mallocAllocator" then r.mallocR else if member == "newArrayAllocator" then r.newArrayR else r.newR
+
+def ReportAllocs.set (r : ReportAllocs) (member : String) (a : Allocator) : ReportAllocs :=
+  if member == "mallocAllocator" then { r with mallocR := a }
+  else if member == "newArrayAllocator" then { r with newArrayR := a } else { r with newR := a }
+
+/-- `setCurrent…Allocator(a)` -/
+def Current.bySetter (c : Current) (setter : String) (a : Allocator) : Current :=
+  if setter == "setCurrentMallocAllocator" then { c with mallocA := a }
+  else if setter == "setCurrentNewArrayAllocator" then { c with newArrayA := a } else { c with newA := a }
+
+/-- `A.setRealAllocator(G()); S(&B);` -/
+def installStep (st : ReportAllocs × Current) (e : String × String × String × String) : ReportAllocs × Current :=
+  ((st.1.set e.1 ((st.1.get e.1).rewrap (st.2.byGetter e.2.1))),
+   st.2.bySetter e.2.2.1 ((st.1.set e.1 ((st.1.get e.1).rewrap (st.2.byGetter e.2.1))).get e.2.2.2))
+
+/-- `if (G() == &A) S(B.getRealAllocator());` -/
+def removeStep (r : ReportAllocs) (c : Current) (e : String × String × String × String) : Current :=
+  if (c.byGetter e.1).id == (r.get e.2.1).id then c.bySetter e.2.2.1 (r.get e.2.2.2).real else c
+
+/-- `setGlobalMemoryReportAllocators()` as regenerated (the pre-test action of the plugin) -/
+def reportPre (r : ReportAllocs) (c : Current) : ReportAllocs × Current :=
+  Gen.LeakDetector.reportInstall.foldl installStep (r, c)
+
+/-- `removeGlobalMemoryReportAllocators()` as regenerated (the post-test action) -/
+def reportPost (r : ReportAllocs) (c : Current) : Current :=
+  Gen.LeakDetector.reportRemove.foldl (removeStep r) c
+
+/-- a record's allocator is a pointer: when the object `a` changes what it wraps, every record that names it sees that -/
+def rebindNode (a : Allocator) (n : Node) : Node := if n.allocator.id = a.id then { n with allocator := a } else n
+
+def State.rebind (s : State) (a : Allocator) : State :=
+  { s with table := { s.table with buckets := s.table.buckets.map (fun b => b.map (rebindNode a)) } }
+
 /-! ## operations as data (histories) -/
 
 inductive Op
